@@ -533,6 +533,41 @@ func checkAndExtractFieldType(paths []string, typ reflect.Type) (extracted refle
 	return extracted, false, nil
 }
 
+// checkSettableTargetPath refuses at compile time what the destination walk can never do: a field promoted through an
+// embedded pointer of unexported type cannot be assigned, because the pointer of the fresh destination value is nil and
+// reflection may not set an unexported field (settableFieldByName fails on every run).
+func checkSettableTargetPath(paths []string, typ reflect.Type) error {
+	for _, field := range paths {
+		if typ.Kind() == reflect.Map {
+			typ = typ.Elem()
+			continue
+		}
+		if typ.Kind() == reflect.Ptr {
+			typ = typ.Elem()
+		}
+		if typ.Kind() != reflect.Struct {
+			return nil
+		}
+		sf, ok := typ.FieldByName(field)
+		if !ok {
+			return nil
+		}
+		t := typ
+		for _, idx := range sf.Index[:len(sf.Index)-1] {
+			f := t.Field(idx)
+			if f.Type.Kind() == reflect.Ptr && !f.IsExported() {
+				return fmt.Errorf("type[%v] field[%s] is promoted through an embedded pointer of unexported type[%v], which cannot be set", typ, field, f.Type)
+			}
+			t = f.Type
+			if t.Kind() == reflect.Ptr {
+				t = t.Elem()
+			}
+		}
+		typ = sf.Type
+	}
+	return nil
+}
+
 var strType = reflect.TypeOf("")
 
 func checkAndExtractToField(toField string, output, toSet reflect.Value) (field reflect.Value, err error) {
@@ -787,6 +822,9 @@ func validateFieldMapping(predecessorType reflect.Type, successorType reflect.Ty
 
 		successorFieldType, successorIntermediateInterface, err = checkAndExtractFieldType(splitFieldPath(mapping.to), successorType)
 		if err != nil {
+			return nil, fmt.Errorf("static check failed for mapping %s: %w", mapping, err)
+		}
+		if err = checkSettableTargetPath(splitFieldPath(mapping.to), successorType); err != nil {
 			return nil, fmt.Errorf("static check failed for mapping %s: %w", mapping, err)
 		}
 
